@@ -375,6 +375,30 @@ def run_shard(desc):
                 res.violation(f'C03/stack-grows:{kind}', f'{kind}: stack depth {d0}@{k0} -> {depth}@{k}', wit, f'depth:{kind}')
             else:
                 res.ok(f'depth:{kind}', ('depth', kind, k))
+    # ---- (6) RFC-valid but unusual OPENs: the optional parameters total 250..255 octets in the base encoding (255 is the
+    # largest it can say, and also the marker of the RFC 9072 encoding when the next octet is 255 too) and 255..300 in the
+    # extended one; one capability per parameter and all in one
+    for total in (250, 253, 254, 255):
+        for one_param in (False, True):
+            caps = [rw.cap_mp(1, 1), rw.cap_mp(2, 1), rw.cap_asn4(65001), (2, b'')]
+            fixed = len(rw.enc_params(list(caps), False, one_param))
+            # a filler capability of an unassigned code closes the gap (its own headers: 2 octets, +2 when it is its own parameter)
+            over = 2 if one_param else 4
+            if total - (fixed - 1) - over < 0:
+                continue
+            caps.append((200, bytes(total - (fixed - 1) - over)))
+            params = rw.enc_params(list(caps), False, one_param)
+            if len(params) != 1 + total:  # the length octet + the parameters
+                res.count(f'open-params-builder-off:{len(params) - 1}')
+                continue
+            sk, (nb, neg) = sess(total + desc['shard'])
+            body = rw.enc_open_body(65001, 90, '10.0.0.2', caps, one_param=one_param)
+            run_one(res, sensor, 1, body, nb, neg, 'unusual:open-params-%d%s' % (total, '-one' if one_param else ''), sk, must_decode=True)
+    for total in (255, 256, 300):
+        caps = [rw.cap_mp(1, 1), rw.cap_asn4(65001), (2, b''), (200, bytes(120)), (201, bytes(total - 155))]
+        sk, (nb, neg) = sess(total + desc['shard'])
+        body = rw.enc_open_body(65001, 90, '10.0.0.2', caps, extended=True)
+        run_one(res, sensor, 1, body, nb, neg, 'unusual:open-params-extended', sk, must_decode=True)
     res.sample({'K_steps_per_byte': K, 'sessions': sorted(built)}, limit=1)
     if desc.get('loud'):
         from exabgp.logger import log
